@@ -217,23 +217,30 @@ theorem basicHit_some {c : Cache} {key : Int} {ridx : Nat} {user : Bytes} {e : E
     · cases h
   · cases h
 
+theorem basicAuth_new {P : Prims} {cfg : Cfg} {ridx : Nat} {rule : Rule} {st : St} {user pw : Bytes}
+    (hr : cfg.rules[ridx]? = some rule) (hs : rule.scheme = .basic) {p : Int × Entry}
+    (hp : p ∈ (basicAuth P cfg ridx rule st user pw).1.cache) :
+    p ∈ st.cache ∨ (EntryOk P cfg p.2 ∧ p.2.scope = cfg.cur) := by
+  unfold basicAuth at hp
+  split at hp
+  · exact Or.inl hp
+  · split at hp
+    · exact Or.inl hp
+    · split at hp
+      · rename_i hb
+        rcases mem_insert hp with rfl | hp
+        · right
+          exact ⟨⟨rule, hr, fun _ => hb, fun h => by rw [hs] at h; cases h⟩, rfl⟩
+        · exact Or.inl hp
+      · exact Or.inl hp
+
 theorem basicAuth_cacheOk {P : Prims} {cfg : Cfg} {ridx : Nat} {rule : Rule} {st : St} {user pw : Bytes}
     (hc : CacheOk P cfg st.cache) (hr : cfg.rules[ridx]? = some rule) (hs : rule.scheme = .basic) :
     CacheOk P cfg (basicAuth P cfg ridx rule st user pw).1.cache := by
-  unfold basicAuth
-  split
-  · exact hc
-  · split
-    · exact hc
-    · split
-      · rename_i hb
-        intro p hp
-        rcases mem_insert hp with rfl | hp
-        · refine ⟨rule, hr, ?_, ?_⟩
-          · intro _; exact hb
-          · intro h; rw [hs] at h; cases h
-        · exact hc p hp
-      · exact hc
+  intro p hp
+  rcases basicAuth_new hr hs hp with h | h
+  · exact hc p h
+  · exact h.1
 
 theorem basicAuth_sound {P : Prims} {cfg : Cfg} {ridx : Nat} {rule : Rule} {st : St} {user pw : Bytes}
     (hc : CacheOk P cfg st.cache) (hr : cfg.rules[ridx]? = some rule) (hs : rule.scheme = .basic)
@@ -258,21 +265,22 @@ theorem basicAuth_sound {P : Prims} {cfg : Cfg} {ridx : Nat} {rule : Rule} {st :
       · rename_i hb; exact hb
       · cases h
 
-theorem digestGet_cacheOk {P : Prims} {cfg : Cfg} {ridx : Nat} {rule : Rule} {st : St} {ai : AI}
-    (hc : CacheOk P cfg st.cache) (hr : cfg.rules[ridx]? = some rule) (hs : rule.scheme = .digest)
-    (hrealm : ai.realm = rule.realm) :
-    CacheOk P cfg (digestGet P cfg ridx st ai).1.cache := by
-  unfold digestGet
-  split
-  · exact hc
-  · split
-    · exact hc
-    · split
-      · exact hc
+theorem digestGet_new {P : Prims} {cfg : Cfg} {ridx : Nat} {rule : Rule} {st : St} {ai : AI}
+    (hr : cfg.rules[ridx]? = some rule) (hs : rule.scheme = .digest)
+    (hrealm : ai.realm = rule.realm) {p : Int × Entry} (hp : p ∈ (digestGet P cfg ridx st ai).1.cache) :
+    p ∈ st.cache ∨ (EntryOk P cfg p.2 ∧ p.2.scope = cfg.cur) := by
+  unfold digestGet at hp
+  split at hp
+  · exact Or.inl hp
+  · split at hp
+    · exact Or.inl hp
+    · split at hp
+      · exact Or.inl hp
       · rename_i ai2 hb
-        intro p hp
         rcases mem_insert hp with rfl | hp
-        · obtain ⟨hl, _⟩ := backendDigest_some hb
+        · right
+          refine ⟨?_, rfl⟩
+          obtain ⟨hl, _⟩ := backendDigest_some hb
           simp only at hl
           refine ⟨rule, hr, ?_, ?_⟩
           · intro h; rw [hs] at h; cases h
@@ -295,19 +303,38 @@ theorem digestGet_cacheOk {P : Prims} {cfg : Cfg} {ridx : Nat} {rule : Rule} {st
                 · exact hlen
             · simp only [digestEntry]
               rw [← hrealm]; exact hl
-        · exact hc p hp
+        · exact Or.inl hp
 
-theorem digestGet_transparent {P : Prims} {cfg : Cfg} {ridx : Nat} {rule : Rule} {st : St} {ai : AI}
+theorem digestGet_cacheOk {P : Prims} {cfg : Cfg} {ridx : Nat} {rule : Rule} {st : St} {ai : AI}
     (hc : CacheOk P cfg st.cache) (hr : cfg.rules[ridx]? = some rule) (hs : rule.scheme = .digest)
     (hrealm : ai.realm = rule.realm) :
-    (digestGet P cfg ridx st ai).2 = backendDigest P cfg { ai with username := digestKey ai } := by
+    CacheOk P cfg (digestGet P cfg ridx st ai).1.cache := by
+  intro p hp
+  rcases digestGet_new hr hs hrealm hp with h | h
+  · exact hc p h
+  · exact h.1
+
+/-- what mod_auth_digest_get() returns: the answer of the backend in effect, or — on a cache
+    hit — the answer of the backend that vouched for the entry (`cfgOf e`) -/
+theorem digestGet_result {P : Prims} {cfg : Cfg} {ridx : Nat} {rule : Rule} {st : St} {ai : AI}
+    (cfgOf : Entry → Cfg)
+    (hE : ∀ p ∈ st.cache, EntryOk P (cfgOf p.2) p.2 ∧ (cfgOf p.2).rules = cfg.rules)
+    (hr : cfg.rules[ridx]? = some rule) (hs : rule.scheme = .digest)
+    (hrealm : ai.realm = rule.realm) :
+    (digestGet P cfg ridx st ai).2 = backendDigest P cfg { ai with username := digestKey ai } ∨
+    ∃ p ∈ st.cache, (digestGet P cfg ridx st ai).2 =
+      backendDigest P (cfgOf p.2) { ai with username := digestKey ai } := by
   unfold digestGet
   split
-  · rfl
+  · exact Or.inl rfl
   · split
     · rename_i e hhit
+      right
       obtain ⟨hm, hcond⟩ := digestHitEntry_some hhit
-      obtain ⟨rule', hr', _, hd⟩ := hc _ hm
+      refine ⟨_, hm, ?_⟩
+      obtain ⟨⟨rule', hr', _, hd⟩, hrules⟩ := hE _ hm
+      rw [hrules] at hr'
+      generalize hcE : cfgOf (P.hash ridx (digestKey ai), e).2 = cfgE at hd ⊢
       simp only [digestHit, Bool.and_eq_true, decide_eq_true_eq] at hcond
       obtain ⟨⟨⟨⟨h1, h2⟩, h3⟩, h4⟩, h5⟩ := hcond
       simp only at hr'
@@ -317,7 +344,7 @@ theorem digestGet_transparent {P : Prims} {cfg : Cfg} {ridx : Nat} {rule : Rule}
       obtain ⟨uh, hkind, hlen, hl⟩ := hd hs
       simp only at hkind hlen hl
       -- the lookup the backend would do now
-      have hl' : backendLookup P cfg ai.realm ai.userhash ai.dlen (digestKey ai) = some (e.username, e.pw) := by
+      have hl' : backendLookup P cfgE ai.realm ai.userhash ai.dlen (digestKey ai) = some (e.username, e.pw) := by
         rw [hrealm, ← h3, ← h4]
         rcases hkind with hk | ⟨_, _, hpl⟩
         · have h6 : (!uh) = (!ai.userhash) := hk.symm.trans h5
@@ -342,9 +369,18 @@ theorem digestGet_transparent {P : Prims} {cfg : Cfg} {ridx : Nat} {rule : Rule}
           rw [this, hkey]
       simp only [Bool.not_eq_eq_eq_not, Bool.not_true] at hname ⊢
       rw [hname]
-    · split
+    · left
+      split
       · rename_i hb; simp only; rw [hb]
       · rename_i ai2 hb; simp only; rw [hb]
+
+theorem digestGet_transparent {P : Prims} {cfg : Cfg} {ridx : Nat} {rule : Rule} {st : St} {ai : AI}
+    (hc : CacheOk P cfg st.cache) (hr : cfg.rules[ridx]? = some rule) (hs : rule.scheme = .digest)
+    (hrealm : ai.realm = rule.realm) :
+    (digestGet P cfg ridx st ai).2 = backendDigest P cfg { ai with username := digestKey ai } := by
+  rcases digestGet_result (fun _ => cfg) (fun p hp => ⟨hc p hp, rfl⟩) hr hs hrealm with h | ⟨_, _, h⟩
+  · exact h
+  · exact h
 
 /-! ### Digest: what the validation steps establish -/
 
@@ -430,7 +466,7 @@ theorem validateNonce_ok {P : Prims} {rule : Rule} {epoch : Int} {nonce : Bytes}
           rw [hs] at hsec
           simp only [Option.some.injEq] at hsec
           subst hsec
-          exact ⟨_, heq.symm⟩
+          exact ⟨_, Nat.mod_lt _ (by decide), heq.symm⟩
 
 theorem digestPre_ok {P : Prims} {cfg : Cfg} {rule : Rule} {epoch : Int} {req : Req}
     {dp : Params} {ai : AI} {nn : Bool} (h : digestPre P cfg rule epoch req = .ok (dp, ai, nn)) :
@@ -597,35 +633,6 @@ theorem cleanup_cacheOk {P : Prims} {cfg : Cfg} {c : Cache} {ma cur : Int}
     (hc : CacheOk P cfg c) : CacheOk P cfg (c.cleanup ma cur) :=
   fun p hp => hc p (mem_cleanup hp).1
 
-theorem tick_cacheOk {P : Prims} {cfg : Cfg} {st : St}
-    (hc : CacheOk P cfg st.cache) : CacheOk P cfg (tick cfg st).cache := by
-  unfold tick
-  simp only
-  split
-  · split
-    · exact cleanup_cacheOk hc
-    · exact hc
-  · exact hc
-
-theorem advance_cacheOk {P : Prims} {cfg : Cfg} (n : Nat) {st : St}
-    (hc : CacheOk P cfg st.cache) : CacheOk P cfg (advance cfg n st).cache := by
-  induction n generalizing st with
-  | zero => exact hc
-  | succ n ih => exact ih (tick_cacheOk hc)
-
-theorem step_cacheOk {P : Prims} {cfg : Cfg} {st : St} (op : Op)
-    (hc : CacheOk P cfg st.cache) : CacheOk P cfg (step P cfg st op).1.cache := by
-  cases op with
-  | request r => exact handle_cacheOk hc
-  | adv dt => exact advance_cacheOk dt hc
-  | epochShift d => exact hc
-
-theorem run_cacheOk {P : Prims} {cfg : Cfg} (ops : List Op) {st : St}
-    (hc : CacheOk P cfg st.cache) : CacheOk P cfg (run P cfg st ops).cache := by
-  induction ops generalizing st with
-  | nil => exact hc
-  | cons op ops ih => exact ih (step_cacheOk op hc)
-
 theorem cacheOk_nil {P : Prims} {cfg : Cfg} : CacheOk P cfg [] := fun _ h => by cases h
 
 /-! ### the cache never changes a refusal into an acceptance -/
@@ -715,9 +722,10 @@ theorem handle_go_nocache {P : Prims} {cfg : Cfg} {st : St} {req : Req} {u : Byt
 /-! ### cache entries age out -/
 
 /-- every entry was created in the past and is at most max-age old, plus the time since the
-    last run of the cleanup (which happens when the monotonic second is a multiple of 8) -/
+    last cleanup — which runs when the loop LEAVES a second that is a multiple of 8 (the trigger
+    sees the old second), i.e. between 1 and 8 seconds ago while the loop runs every second -/
 def AgeOk (ma : Int) (st : St) : Prop :=
-  ∀ p ∈ st.cache, p.2.ctime ≤ st.mono ∧ st.mono - p.2.ctime ≤ max ma 0 + st.mono % 8
+  ∀ p ∈ st.cache, p.2.ctime ≤ st.mono ∧ st.mono - p.2.ctime ≤ max ma 0 + ((st.mono - 1) % 8 + 1)
 
 theorem basicAuth_mem {P : Prims} {cfg : Cfg} {ridx : Nat} {rule : Rule} {st : St} {user pw : Bytes}
     {p : Int × Entry} (h : p ∈ (basicAuth P cfg ridx rule st user pw).1.cache) :
@@ -811,39 +819,6 @@ theorem handle_ageOk {P : Prims} {cfg : Cfg} {st : St} {req : Req} {ma : Int}
   rcases handle_mem hp with hp | hp
   · exact h p hp
   · rw [hp]; constructor <;> omega
-
-theorem tick_ageOk {cfg : Cfg} {st : St} {ma : Int} (hma : cfg.cacheMaxAge = some ma)
-    (h : AgeOk ma st) : AgeOk ma (tick cfg st) := by
-  intro p hp
-  unfold tick at hp ⊢
-  simp only [hma] at hp ⊢
-  split at hp
-  · rename_i h8
-    obtain ⟨hp, hle⟩ := mem_cleanup hp
-    obtain ⟨h1, h2⟩ := h p hp
-    constructor <;> omega
-  · rename_i h8
-    obtain ⟨h1, h2⟩ := h p hp
-    constructor <;> omega
-
-theorem advance_ageOk {cfg : Cfg} {ma : Int} (hma : cfg.cacheMaxAge = some ma) (n : Nat) {st : St}
-    (h : AgeOk ma st) : AgeOk ma (advance cfg n st) := by
-  induction n generalizing st with
-  | zero => exact h
-  | succ n ih => exact ih (tick_ageOk hma h)
-
-theorem step_ageOk {P : Prims} {cfg : Cfg} {ma : Int} (hma : cfg.cacheMaxAge = some ma) {st : St} (op : Op)
-    (h : AgeOk ma st) : AgeOk ma (step P cfg st op).1 := by
-  cases op with
-  | request r => exact handle_ageOk h
-  | adv dt => exact advance_ageOk hma dt h
-  | epochShift d => exact h
-
-theorem run_ageOk {P : Prims} {cfg : Cfg} {ma : Int} (hma : cfg.cacheMaxAge = some ma) (ops : List Op) {st : St}
-    (h : AgeOk ma st) : AgeOk ma (run P cfg st ops) := by
-  induction ops generalizing st with
-  | nil => exact h
-  | cons op ops ih => exact ih (step_ageOk hma op h)
 
 /-! ### refusals: which status for which reason -/
 
@@ -991,30 +966,6 @@ theorem handle_go {P : Prims} {cfg : Cfg} {st : St} {req : Req} {ridx : Nat} {ru
     rw [hs] at h
     obtain ⟨vb, hvb, hv, hd⟩ := checkDigest_go hc hr hs h
     exact ⟨vb, hvb, Or.inr ⟨rfl, hd, hv⟩⟩
-
-/-! ### forgetting -/
-
-theorem tick_mem {cfg : Cfg} {st : St} {p : Int × Entry} (h : p ∈ (tick cfg st).cache) : p ∈ st.cache := by
-  unfold tick at h
-  simp only at h
-  split at h
-  · split at h
-    · exact (mem_cleanup h).1
-    · exact h
-  · exact h
-
-theorem tick_mono {cfg : Cfg} {st : St} : (tick cfg st).mono = st.mono + 1 := rfl
-
-theorem advance_mem {cfg : Cfg} (n : Nat) {st : St} {p : Int × Entry}
-    (h : p ∈ (advance cfg n st).cache) : p ∈ st.cache := by
-  induction n generalizing st with
-  | zero => exact h
-  | succ n ih => exact tick_mem (ih h)
-
-theorem advance_mono {cfg : Cfg} (n : Nat) {st : St} : (advance cfg n st).mono = st.mono + n := by
-  induction n generalizing st with
-  | zero => simp [advance]
-  | succ n ih => simp only [advance]; rw [ih, tick_mono]; omega
 
 /-! ### nonces issued by mod_auth_append_nonce() pass mod_auth_digest_validate_nonce() -/
 
@@ -1245,7 +1196,7 @@ theorem h2Fields_from (fs : List (Bytes × Bytes)) {a a' : H2Acc} (h : h2Fields 
 
 /-- the request handed to mod_auth carries the :method the client sent, and counts as an
     extended CONNECT only if the client sent ":method: CONNECT" and ":protocol: websocket" -/
-theorem h2Request_from {fields : List (Bytes × Bytes)} {req : Req} (h : h2Request fields = .ok req) :
+theorem h2Request_from {o : Opts} {fields : List (Bytes × Bytes)} {req : Req} (h : h2Request o fields = .ok req) :
     (ofString ":method", req.method) ∈ fields ∧
     (req.protocol = true → (ofString ":protocol", ofString "websocket") ∈ fields) := by
   unfold h2Request at h
@@ -1293,13 +1244,497 @@ theorem responseMatches_bound {P : Prims} {req : Req} {dp : Params} {dalgo : Nat
   · exact Or.inr ⟨h1, h2, h3⟩
 
 
+/-! ### backend scopes: the configuration in effect per request, one shared cache -/
+
+@[simp] theorem at_rules (cfg : Cfg) (s : Nat) : (cfg.at s).rules = cfg.rules := by
+  unfold Cfg.at; split <;> rfl
+@[simp] theorem at_cacheMaxAge (cfg : Cfg) (s : Nat) : (cfg.at s).cacheMaxAge = cfg.cacheMaxAge := by
+  unfold Cfg.at; split <;> rfl
+@[simp] theorem at_cur (cfg : Cfg) (s : Nat) : (cfg.at s).cur = s := by
+  unfold Cfg.at; split <;> rfl
+
+theorem backendBasic_congr {P : Prims} {c1 c2 : Cfg} (hb : c1.backend = c2.backend) (hf : c1.file = c2.file)
+    (rule : Rule) (u pw : Bytes) : backendBasic P c1 rule u pw = backendBasic P c2 rule u pw := by
+  unfold backendBasic; rw [hb, hf]
+
+theorem backendLookup_congr {P : Prims} {c1 c2 : Cfg} (hb : c1.backend = c2.backend) (hf : c1.file = c2.file)
+    (realm : Bytes) (uh : Bool) (dlen : Nat) (name : Bytes) :
+    backendLookup P c1 realm uh dlen name = backendLookup P c2 realm uh dlen name := by
+  unfold backendLookup; rw [hb, hf]
+
+theorem entryOk_congr {P : Prims} {c1 c2 : Cfg} (hr : c1.rules = c2.rules) (hb : c1.backend = c2.backend)
+    (hf : c1.file = c2.file) {e : Entry} (h : EntryOk P c1 e) : EntryOk P c2 e := by
+  obtain ⟨rule, h1, h2, h3⟩ := h
+  refine ⟨rule, by rw [← hr]; exact h1, ?_, ?_⟩
+  · intro hs; rw [← backendBasic_congr hb hf]; exact h2 hs
+  · intro hs
+    obtain ⟨uh, hk, hl, hlk⟩ := h3 hs
+    refine ⟨uh, ?_, hl, by rw [← backendLookup_congr hb hf]; exact hlk⟩
+    rcases hk with hk | ⟨a, b, c⟩
+    · exact Or.inl hk
+    · exact Or.inr ⟨a, b, by rw [← hb]; exact c⟩
+
+/-- the two scopes select the same backend and the same user file -/
+def SameBackend (cfg : Cfg) (s s' : Nat) : Prop :=
+  (cfg.at s).backend = (cfg.at s').backend ∧ (cfg.at s).file = (cfg.at s').file
+
+/-- scoped invariant: every entry restates a record of the backend scope that vouched for it -/
+def CacheOkS (P : Prims) (cfg : Cfg) (c : Cache) : Prop := ∀ p ∈ c, EntryOk P (cfg.at p.2.scope) p.2
+
+theorem cacheOkS_nil {P : Prims} {cfg : Cfg} : CacheOkS P cfg [] := fun _ h => by cases h
+
+theorem cacheOkS_same {P : Prims} {cfg : Cfg} {c : Cache} {s : Nat} (hc : CacheOkS P cfg c)
+    (hs : ∀ p ∈ c, SameBackend cfg p.2.scope s) : CacheOk P (cfg.at s) c := by
+  intro p hp
+  exact entryOk_congr (by simp) (hs p hp).1 (hs p hp).2 (hc p hp)
+
+/-! new entries of one request: vouched for by the configuration in effect, tagged with its scope -/
+
+theorem handle_new {P : Prims} {cfg : Cfg} {st : St} {req : Req} {p : Int × Entry}
+    (hp : p ∈ (handle P cfg st req).1.cache) :
+    p ∈ st.cache ∨ (EntryOk P cfg p.2 ∧ p.2.scope = cfg.cur) := by
+  unfold handle at hp
+  split at hp
+  · exact Or.inl hp
+  · rename_i ridx rule hf
+    have hr := findRule_get0 hf
+    split at hp
+    · rename_i hs
+      unfold checkBasic at hp
+      split at hp
+      · exact Or.inl hp
+      · split at hp
+        · exact Or.inl hp
+        · split at hp
+          · exact Or.inl hp
+          · split at hp <;> exact basicAuth_new hr hs hp
+    · rename_i hs
+      unfold checkDigest at hp
+      split at hp
+      · exact Or.inl hp
+      · rename_i dp ai nn hpre
+        obtain ⟨_, _, _, _, hpo, _⟩ := digestPre_ok hpre
+        split at hp <;> exact digestGet_new hr hs hpo.airealm hp
+
+theorem serve_cacheOkS {P : Prims} {cfg : Cfg} {st : St} {req : Req}
+    (hc : CacheOkS P cfg st.cache) : CacheOkS P cfg (serve P cfg st req).1.cache := by
+  intro p hp
+  rcases handle_new hp with h | ⟨h1, h2⟩
+  · exact hc p h
+  · rw [at_cur] at h2; rw [h2]; exact h1
+
+theorem serve_scope {P : Prims} {cfg : Cfg} {st : St} {req : Req} {p : Int × Entry}
+    (hp : p ∈ (serve P cfg st req).1.cache) : p ∈ st.cache ∨ p.2.scope = req.scope := by
+  rcases handle_new hp with h | ⟨_, h2⟩
+  · exact Or.inl h
+  · rw [at_cur] at h2; exact Or.inr h2
+
+/-! the server loop only removes entries -/
+
+theorem periodic_mem {cfg : Cfg} {st : St} {p : Int × Entry} (h : p ∈ (periodic cfg st).cache) : p ∈ st.cache := by
+  unfold periodic at h
+  split at h
+  · split at h
+    · exact (mem_cleanup h).1
+    · exact h
+  · exact h
+
+theorem loopIter_mem {cfg : Cfg} {dt : Nat} {st : St} {p : Int × Entry}
+    (h : p ∈ (loopIter cfg dt st).cache) : p ∈ st.cache := by
+  unfold loopIter at h
+  split at h
+  · exact h
+  · exact periodic_mem h
+
+theorem secs_mem {cfg : Cfg} (n : Nat) {st : St} {p : Int × Entry}
+    (h : p ∈ (secs cfg n st).cache) : p ∈ st.cache := by
+  induction n generalizing st with
+  | zero => exact h
+  | succ n ih => exact loopIter_mem (ih h)
+
+/-- scopes of the requests of a history -/
+def usedScopes : List Op → List Nat
+  | [] => []
+  | .request r :: ops => r.scope :: usedScopes ops
+  | _ :: ops => usedScopes ops
+
+theorem step_cacheOkS {P : Prims} {cfg : Cfg} {st : St} (op : Op)
+    (hc : CacheOkS P cfg st.cache) : CacheOkS P cfg (step P cfg st op).1.cache := by
+  cases op with
+  | request r => exact serve_cacheOkS hc
+  | adv dt => exact fun p hp => hc p (loopIter_mem hp)
+  | secs n => exact fun p hp => hc p (secs_mem n hp)
+  | epochShift d => exact hc
+
+theorem run_cacheOkS {P : Prims} {cfg : Cfg} (ops : List Op) {st : St}
+    (hc : CacheOkS P cfg st.cache) : CacheOkS P cfg (run P cfg st ops).cache := by
+  induction ops generalizing st with
+  | nil => exact hc
+  | cons op ops ih => exact ih (step_cacheOkS op hc)
+
+theorem run_scopes {P : Prims} {cfg : Cfg} (ops : List Op) {st : St} (used : List Nat)
+    (h : ∀ p ∈ st.cache, p.2.scope ∈ used) :
+    ∀ p ∈ (run P cfg st ops).cache, p.2.scope ∈ used ++ usedScopes ops := by
+  induction ops generalizing st used with
+  | nil => intro p hp; simp only [usedScopes, List.append_nil]; exact h p hp
+  | cons op ops ih =>
+    cases op with
+    | request r =>
+      intro p hp
+      have := ih (st := (step P cfg st (.request r)).1) (used ++ [r.scope]) (by
+        intro q hq
+        rcases serve_scope hq with hq | hq
+        · exact List.mem_append_left _ (h q hq)
+        · rw [hq]; simp) p hp
+      simpa [usedScopes, List.append_assoc] using this
+    | adv dt =>
+      intro p hp
+      exact ih (st := (step P cfg st (.adv dt)).1) used (fun q hq => h q (loopIter_mem hq)) p hp
+    | secs n =>
+      intro p hp
+      exact ih (st := (step P cfg st (.secs n)).1) used (fun q hq => h q (secs_mem n hq)) p hp
+    | epochShift d =>
+      intro p hp
+      exact ih (st := (step P cfg st (.epochShift d)).1) used h p hp
+
+/-! ### soundness with a cache shared by several backend scopes -/
+
+theorem basicAuth_true {P : Prims} {cfg : Cfg} {ridx : Nat} {rule : Rule} {st : St} {user pw : Bytes}
+    (h : (basicAuth P cfg ridx rule st user pw).2 = true) :
+    backendBasic P cfg rule user pw = true ∨
+    ∃ p ∈ st.cache, p.2.rule = ridx ∧ p.2.username = user ∧ p.2.pw = pw := by
+  unfold basicAuth at h
+  split at h
+  · exact Or.inl h
+  · split at h
+    · rename_i e hhit
+      obtain ⟨hm, h1, h2⟩ := basicHit_some hhit
+      simp only [decide_eq_true_eq] at h
+      exact Or.inr ⟨_, hm, h1, h2, h⟩
+    · split at h
+      · rename_i hb; exact Or.inl hb
+      · cases h
+
+theorem basicValid_of_backend {P : Prims} {cfg : Cfg} {rule : Rule} {vb u pw : Bytes}
+    (hc : basicCreds vb = .ok (u, pw)) (hb : backendBasic P cfg rule u pw = true) : BasicValid P cfg rule vb u := by
+  obtain ⟨hm, hrec⟩ := backendBasic_valid hb
+  exact ⟨pw, hc, hm, hrec⟩
+
+/-- a served request carries credentials valid for the scope in effect or for the scope that
+    vouched for a cache entry -/
+theorem serve_go {P : Prims} {cfg : Cfg} {st : St} {req : Req} {ridx : Nat} {rule : Rule}
+    {u : Bytes} {d n : Bool}
+    (hc : CacheOkS P cfg st.cache)
+    (hf : findRule cfg.rules req.path 0 = some (ridx, rule))
+    (h : (serve P cfg st req).2 = .go u d n) :
+    ∃ hdr s', req.auth = some hdr ∧ (s' = req.scope ∨ ∃ p ∈ st.cache, p.2.scope = s') ∧
+      ((rule.scheme = .basic ∧ d = false ∧ BasicValid P (cfg.at s') rule hdr u)
+       ∨ (rule.scheme = .digest ∧ d = true ∧ DigestValid P (cfg.at s') rule st.epoch req hdr u)) := by
+  have hr : (cfg.at req.scope).rules[ridx]? = some rule := by rw [at_rules]; exact findRule_get0 hf
+  unfold serve handle at h
+  rw [at_rules, hf] at h
+  dsimp only at h
+  cases hs : rule.scheme with
+  | basic =>
+    rw [hs] at h
+    dsimp only at h
+    unfold checkBasic at h
+    split at h
+    · cases h
+    · split at h
+      · cases h
+      · rename_i vb hvb
+        split at h
+        · cases h
+        · rename_i user pw hcreds
+          split at h
+          · rename_i hok
+            simp only [Outcome.go.injEq] at h
+            obtain ⟨rfl, rfl, rfl⟩ := h
+            rcases basicAuth_true hok with hb | ⟨p, hp, h1, h2, h3⟩
+            · exact ⟨vb, req.scope, hvb, Or.inl rfl, Or.inl ⟨rfl, rfl, basicValid_of_backend hcreds hb⟩⟩
+            · obtain ⟨rule', hr', hb, _⟩ := hc p hp
+              rw [at_rules, h1] at hr'
+              rw [at_rules] at hr
+              rw [hr] at hr'
+              simp only [Option.some.injEq] at hr'
+              subst hr'
+              have := hb hs
+              rw [h2, h3] at this
+              exact ⟨vb, p.2.scope, hvb, Or.inr ⟨p, hp, rfl⟩, Or.inl ⟨rfl, rfl, basicValid_of_backend hcreds this⟩⟩
+          · cases h
+  | digest =>
+    rw [hs] at h
+    dsimp only at h
+    rw [checkDigest_snd] at h
+    unfold checkDigestOut at h
+    split at h
+    · cases h
+    · rename_i dp ai nn hpre
+      obtain ⟨vb, hvb, hpfx, hdp, hpo, hnf⟩ := digestPre_ok hpre
+      split at h
+      · cases h
+      · rename_i ai' hget
+        obtain ⟨hresp, hauth, rfl, rfl, rfl⟩ := digestPost_go h
+        have key : ∃ s', (s' = req.scope ∨ ∃ p ∈ st.cache, p.2.scope = s') ∧
+            backendDigest P (cfg.at s') { ai with username := digestKey ai } = some ai' := by
+          rcases digestGet_result (cfg := cfg.at req.scope) (fun e => cfg.at e.scope)
+              (fun p hp => ⟨hc p hp, by simp⟩) hr hs hpo.airealm with hg | ⟨p, hp, hg⟩
+          · exact ⟨req.scope, Or.inl rfl, by rw [← hg]; exact hget⟩
+          · exact ⟨p.2.scope, Or.inr ⟨p, hp, rfl⟩, by rw [← hg]; exact hget⟩
+        obtain ⟨s', hs', hbk⟩ := key
+        obtain ⟨hl, hai'⟩ := backendDigest_some hbk
+        simp only at hl
+        refine ⟨vb, s', hvb, hs', Or.inr ⟨rfl, rfl, hpfx, dp, dp.nonce.getD [], ai.dalgo, ai.dlen, ai.username,
+                ai'.digest, hdp, hpo.realm, hpo.uri, ?_, hnf, hpo.algo, hpo.allowed, hpo.name, ?_, ?_, hauth⟩⟩
+        · cases hn : dp.nonce with
+          | none => have := hpo.nonce; rw [hn] at this; cases this
+          | some x => rfl
+        · rw [← hpo.airealm, ← hpo.userhash]; exact hl
+        · have : ai'.dalgo = ai.dalgo := by rw [hai']
+          rw [← this]; exact hresp
+
+/-- `BasicValid` / `DigestValid` depend on the configuration only through backend and user file -/
+theorem basicValid_congr {P : Prims} {c1 c2 : Cfg} (hb : c1.backend = c2.backend) (hf : c1.file = c2.file)
+    {rule : Rule} {hdr u : Bytes} (h : BasicValid P c1 rule hdr u) : BasicValid P c2 rule hdr u := by
+  unfold BasicValid at h ⊢
+  rw [← hb, ← hf]; exact h
+
+theorem digestValid_congr {P : Prims} {c1 c2 : Cfg} (hb : c1.backend = c2.backend) (hf : c1.file = c2.file)
+    {rule : Rule} {epoch : Int} {req : Req} {hdr u : Bytes}
+    (h : DigestValid P c1 rule epoch req hdr u) : DigestValid P c2 rule epoch req hdr u := by
+  obtain ⟨h0, dp, nonce, dalgo, dlen, name, hA1, h1, h2, h3, h4, h5, h6, h7, h8, h9, h10, h11⟩ := h
+  exact ⟨h0, dp, nonce, dalgo, dlen, name, hA1, h1, h2, h3, h4, h5, h6, h7, h8,
+         by rw [← backendLookup_congr hb hf]; exact h9, h10, h11⟩
+
+/-- with one backend / user file behind all scopes that filled the cache, the cache never turns
+    a refusal into an acceptance -/
+theorem serve_go_nocache {P : Prims} {cfg : Cfg} {st : St} {req : Req} {u : Bytes} {d n : Bool}
+    (hc : CacheOkS P cfg st.cache) (hs : ∀ p ∈ st.cache, SameBackend cfg p.2.scope req.scope)
+    (h : (serve P cfg st req).2 = .go u d n) :
+    (serve P cfg { st with cache := [] } req).2 = .go u d n :=
+  handle_go_nocache (cacheOkS_same hc hs) h
+
+/-! ### ageing under the real server loop -/
+
+theorem serve_ageOk {P : Prims} {cfg : Cfg} {st : St} {req : Req} {ma : Int}
+    (h : AgeOk ma st) : AgeOk ma (serve P cfg st req).1 := handle_ageOk h
+
+theorem loopIter1_ageOk {cfg : Cfg} {st : St} {ma : Int} (hma : cfg.cacheMaxAge = some ma)
+    (h : AgeOk ma st) : AgeOk ma (loopIter cfg 1 st) := by
+  intro p hp
+  have hmono : (loopIter cfg 1 st).mono = st.mono + 1 := by
+    simp [loopIter]
+  have hcache : (loopIter cfg 1 st).cache = (periodic cfg st).cache := by
+    simp [loopIter]
+  rw [hmono]
+  rw [hcache] at hp
+  unfold periodic at hp
+  rw [hma] at hp
+  dsimp only at hp
+  split at hp
+  · rename_i h8
+    obtain ⟨hp, hle⟩ := mem_cleanup hp
+    obtain ⟨h1, h2⟩ := h p hp
+    constructor <;> omega
+  · rename_i h8
+    obtain ⟨h1, h2⟩ := h p hp
+    constructor <;> omega
+
+theorem loopIter0 {cfg : Cfg} {st : St} : loopIter cfg 0 st = st := by simp [loopIter]
+
+theorem secs_ageOk {cfg : Cfg} {ma : Int} (hma : cfg.cacheMaxAge = some ma) (n : Nat) {st : St}
+    (h : AgeOk ma st) : AgeOk ma (secs cfg n st) := by
+  induction n generalizing st with
+  | zero => exact h
+  | succ n ih => exact ih (loopIter1_ageOk hma h)
+
+/-- the loop wakes up at least once per second (fdevent_poll() timeout 1000 ms, no stall) -/
+def Steady : List Op → Prop
+  | [] => True
+  | .adv dt :: ops => dt ≤ 1 ∧ Steady ops
+  | _ :: ops => Steady ops
+
+theorem run_ageOk {P : Prims} {cfg : Cfg} {ma : Int} (hma : cfg.cacheMaxAge = some ma) (ops : List Op)
+    (hst : Steady ops) {st : St} (h : AgeOk ma st) : AgeOk ma (run P cfg st ops) := by
+  induction ops generalizing st with
+  | nil => exact h
+  | cons op ops ih =>
+    cases op with
+    | request r => exact ih hst (serve_ageOk h)
+    | adv dt =>
+      obtain ⟨hdt, hst⟩ := hst
+      apply ih hst
+      show AgeOk ma (loopIter cfg dt st)
+      have : dt = 0 ∨ dt = 1 := by omega
+      rcases this with rfl | rfl
+      · rw [loopIter0]; exact h
+      · exact loopIter1_ageOk hma h
+    | secs n => exact ih hst (secs_ageOk hma n h)
+    | epochShift d => exact ih hst (fun p hp => h p hp)
+
+theorem secs_mono {cfg : Cfg} (n : Nat) {st : St} : (secs cfg n st).mono = st.mono + n := by
+  induction n generalizing st with
+  | zero => simp [secs]
+  | succ n ih =>
+    simp only [secs]; rw [ih]
+    have : (loopIter cfg 1 st).mono = st.mono + 1 := by simp [loopIter]
+    rw [this]; omega
+
+theorem ageOk_nil {ma m e : Int} : AgeOk ma { cache := [], mono := m, epoch := e } := fun _ h => by cases h
+
+/-! ### completeness: valid credentials of an authorized user are served -/
+
+theorem backendBasic_of_valid {P : Prims} {cfg : Cfg} {rule : Rule} {u pw : Bytes}
+    (hm : matchRules rule.req u = true)
+    (hrec : match cfg.backend with
+      | .plain => htpasswdGet cfg.file u = some (cstr pw)
+      | .htdigest => ∃ name, htdigestScan rule.realm false (digestLen (rule.algorithm &&& 0xfffffffe))
+                       (fileLines cfg.file) u = some (name, ha1 P u rule.realm (cstr pw))
+      | .htpasswd => ∃ stored, htpasswdGet cfg.file u = some stored ∧ htpasswdVerify P stored (cstr pw) = true
+      | .none => False) :
+    backendBasic P cfg rule u pw = true := by
+  unfold backendBasic
+  cases hb : cfg.backend with
+  | none => rw [hb] at hrec; exact hrec.elim
+  | plain => rw [hb] at hrec; simp only at hrec ⊢; rw [hrec]; simp [hm]
+  | htdigest =>
+    rw [hb] at hrec; simp only at hrec ⊢
+    obtain ⟨name, h⟩ := hrec
+    rw [h]; simp [hm]
+  | htpasswd =>
+    rw [hb] at hrec; simp only at hrec ⊢
+    obtain ⟨stored, h1, h2⟩ := hrec
+    rw [h1]; simp [hm, h2]
+
+theorem basic_valid_served {P : Prims} {cfg : Cfg} {st : St} {req : Req} {ridx : Nat} {rule : Rule}
+    {hdr u : Bytes}
+    (hf : findRule cfg.rules req.path 0 = some (ridx, rule)) (hs : rule.scheme = .basic)
+    (hh : req.auth = some hdr) (hv : BasicValid P cfg rule hdr u) :
+    (handle P cfg { st with cache := [] } req).2 = .go u false false := by
+  obtain ⟨pw, hc, hm, hrec⟩ := hv
+  have hb := backendBasic_of_valid hm hrec
+  have hne : cfg.backend ≠ .none := by
+    intro h; rw [h] at hrec; exact hrec
+  unfold handle
+  rw [hf]
+  dsimp only
+  rw [hs]
+  dsimp only
+  unfold checkBasic
+  rw [if_neg hne, hh]
+  dsimp only
+  rw [hc]
+  dsimp only
+  simp only [basicAuth_nil, hb, ↓reduceIte]
+
+theorem toInt64_lt (n : Nat) : toInt64 n < 2 ^ 63 := by
+  have e63 : (2 : Int) ^ 63 = 9223372036854775808 := by decide
+  have n64 : (2 : Nat) ^ 64 = 18446744073709551616 := by decide
+  have n63 : (2 : Nat) ^ 63 = 9223372036854775808 := by decide
+  have e64 : (2 : Int) ^ 64 = 18446744073709551616 := by decide
+  simp only [toInt64, n64, n63, e63, e64, Int.ofNat_eq_natCast]
+  have : n % 18446744073709551616 < 18446744073709551616 := Nat.mod_lt _ (by decide)
+  generalize n % 18446744073709551616 = m at *
+  split <;> omega
+
+theorem validateNonce_complete {P : Prims} {rule : Rule} {epoch : Int} {nonce : Bytes} (dalgo : Nat)
+    (h : NonceFresh P rule epoch nonce) :
+    validateNonce P rule epoch nonce dalgo = .ok (decide (epoch - (nonceTs nonce).1 > 540)) := by
+  obtain ⟨h1, h2, h3, h4, h5⟩ := h
+  cases hs : rule.secret with
+  | none =>
+    have hfresh : ¬ ((nonceTs nonce).2.head? ≠ some 58 ∨ (nonceTs nonce).1 < 0 ∨ (nonceTs nonce).1 > epoch
+                     ∨ epoch - (nonceTs nonce).1 > 600) := by
+      simp only [h1, ne_eq, not_true_eq_false, false_or, not_or]; omega
+    simp only [validateNonce, hs]
+    rw [if_neg hfresh]
+  | some sec =>
+    obtain ⟨rnd, hr, hn⟩ := h5 sec hs
+    have := validateNonce_appendNonce P rule epoch (nonceTs nonce).1 rnd dalgo h2 (toInt64_lt _) h3 h4 hr
+    rw [hs, ← hn] at this
+    exact this
+
+theorem digest_valid_served {P : Prims} {cfg : Cfg} {st : St} {req : Req} {ridx : Nat} {rule : Rule}
+    {hdr u : Bytes}
+    (hf : findRule cfg.rules req.path 0 = some (ridx, rule)) (hs : rule.scheme = .digest)
+    (hh : req.auth = some hdr) (hv : DigestValid P cfg rule st.epoch req hdr u)
+    (hw : DigestWellFormed (parseAuthorization (hdr.drop 7))) :
+    ∃ nn, (handle P cfg { st with cache := [] } req).2 = .go u true nn := by
+  obtain ⟨hpfx, dp, nonce, dalgo, dlen, name, hA1, hdp, hrealm, huri, hnonce, hfresh, halgo, hallowed, hname,
+          hlookup, hresp, hauth⟩ := hv
+  subst hdp
+  obtain ⟨hreq, hqop, hwf⟩ := hw
+  obtain ⟨hsess, hlen⟩ := hwf dalgo dlen halgo
+  have hr := findRule_get0 hf
+  have hbk : ¬ (cfg.backend ≠ .plain ∧ cfg.backend ≠ .htdigest) := by
+    intro ⟨h1, h2⟩
+    unfold backendLookup at hlookup
+    cases hb : cfg.backend with
+    | plain => exact h1 hb
+    | htdigest => exact h2 hb
+    | none => rw [hb] at hlookup; cases hlookup
+    | htpasswd => rw [hb] at hlookup; cases hlookup
+  have hhex : (hex2bin ((parseAuthorization (hdr.drop 7)).response.getD [])).isSome = true := by
+    simp only [responseMatches, Bool.or_eq_true, Bool.and_eq_true, decide_eq_true_eq] at hresp
+    rcases hresp with h | ⟨_, h⟩ <;> rw [h] <;> rfl
+  -- the validation steps succeed
+  have hvp : validateParams rule req (parseAuthorization (hdr.drop 7)) =
+      .ok { dalgo := dalgo, dlen := dlen, username := name, realm := rule.realm,
+            userhash := userhashFlag (parseAuthorization (hdr.drop 7)) } := by
+    unfold validateParams
+    simp only [hreq, Bool.not_true, Bool.false_eq_true, ↓reduceIte, hname, hrealm, Option.getD_some,
+               ne_eq, not_true_eq_false, halgo, hqop, huri]
+    rw [if_neg hallowed, if_neg (by
+      intro ⟨h1, h2⟩
+      have := hsess h1
+      rw [Option.isNone_iff_eq_none] at h2
+      rw [h2] at this; cases this), if_neg (by
+      intro h
+      rcases h with h | h
+      · exact h hlen
+      · rw [Option.isNone_iff_eq_none] at h
+        rw [h] at hhex; cases hhex)]
+  have hvn := validateNonce_complete (P := P) dalgo hfresh
+  have hpre : digestPre P cfg rule st.epoch req = .ok (parseAuthorization (hdr.drop 7),
+      { dalgo := dalgo, dlen := dlen, username := name, realm := rule.realm,
+        userhash := userhashFlag (parseAuthorization (hdr.drop 7)) },
+      decide (st.epoch - (nonceTs nonce).1 > 540)) := by
+    simp only [digestPre]
+    rw [if_neg hbk, hh]
+    dsimp only
+    simp only [hpfx, Bool.not_true, Bool.false_eq_true, ↓reduceIte, hvp, hnonce, Option.getD_some, hvn]
+  refine ⟨decide (st.epoch - (nonceTs nonce).1 > 540), ?_⟩
+  unfold handle
+  rw [hf]
+  dsimp only
+  rw [hs]
+  dsimp only
+  rw [checkDigest_snd]
+  unfold checkDigestOut
+  dsimp only
+  rw [hpre]
+  dsimp only
+  rw [digestGet_transparent (st := { st with cache := [] }) cacheOk_nil hr hs rfl]
+  have hget : backendDigest P cfg
+      { ({ dalgo := dalgo, dlen := dlen, username := name, realm := rule.realm,
+           userhash := userhashFlag (parseAuthorization (hdr.drop 7)) } : AI) with
+        username := digestKey ({ dalgo := dalgo, dlen := dlen, username := name, realm := rule.realm,
+                                 userhash := userhashFlag (parseAuthorization (hdr.drop 7)) } : AI) } =
+      some { dalgo := dalgo, dlen := dlen, username := u, realm := rule.realm,
+             userhash := userhashFlag (parseAuthorization (hdr.drop 7)), digest := hA1 } := by
+    simp only [backendDigest, digestKey, hlookup]
+  simp only [hget]
+  unfold digestPost
+  simp only [hresp, hauth, Bool.not_true, Bool.false_eq_true, ↓reduceIte]
+
 /-! ### a starting state, and fixtures for the non-vacuity examples -/
 
 /-- server start: empty cache, any clock values -/
 def init (mono epoch : Int) : St := { cache := [], mono := mono, epoch := epoch }
 
-theorem init_cacheOk {P : Prims} {cfg : Cfg} {m e : Int} : CacheOk P cfg (init m e).cache := cacheOk_nil
 theorem init_ageOk {ma m e : Int} : AgeOk ma (init m e) := fun _ h => by cases h
+
 
 namespace Ex
 /-- toy "digest" for the examples (the theorems hold for every H): a polynomial checksum, 16 bytes -/
@@ -1328,6 +1763,10 @@ def st0 : St := init 1000 1700000000
 def h2Fields (pseudo : List (String × String)) (response : String) : List (Bytes × Bytes) :=
   pseudo.map (fun p => (ofString p.1, ofString p.2)) ++
     [(ofString "authorization", digestHdr "alice" "/dig/x" response)]
+/-- two backend scopes (say two virtual hosts) with different user files, one global
+    auth.require and auth.cache -/
+def cfg2 : Cfg := { cfg with scopes := [(.plain, ofString "alice:wonder\n"), (.plain, ofString "alice:other\n")] }
+def basicReqAt (s : Nat) (cred : String) : Req := { basicReq cred with scope := s }
 def secretRule : Rule :=
   { pfx := ofString "/sec", scheme := .digest, realm := ofString "R1", algorithm := 3,
     secret := some (ofString "s3cr3t"), userhash := false, req := { validUser := true } }
